@@ -272,6 +272,20 @@ pub fn report_mismatch(
     }
     m.insert("expected".into(), ms_json(exp));
     m.insert("got".into(), ms_json(got));
+    if b.cfg.variant == Variant::Char {
+        if let Ok(s) = std::str::from_utf8(hay) {
+            if got.iter().any(|m| m.0 > hay.len() || m.1 > hay.len() || !s.is_char_boundary(m.0) || !s.is_char_boundary(m.1)) && prop != "C07" {
+                // an offset inside a character means the iterator sliced / decoded the str at a
+                // non-boundary: that is C07's business too
+                acc.violate(
+                    "C07",
+                    engine,
+                    format!("{} of the char-wise automaton reports offsets {:?} that are not character boundaries of {:?}: the unchecked str slicing / UTF-8 decoding ran on a non-boundary", method.name(), got, show(hay)),
+                    c.clone(),
+                );
+            }
+        }
+    }
     acc.violate(
         prop,
         engine,
